@@ -479,6 +479,23 @@ def register(E):
     @model(r'^<(.+) as (?:std|core)::cmp::(?:Partial)?Ord>::(cmp|partial_cmp|lt|le|gt|ge|max|min)$')
     def _(E, st, callee, a, m):
         op = m.group(2)
+        if m.group(1).startswith('std::cmp::Reverse'):
+            return None       # Reverse<T> is ordered by T's own Ord, reversed: see the dedicated model (collections)
+        def local_adts(v, depth=0):
+            v = E.deref(st, v) if isinstance(v, Ref) else v
+            if isinstance(v, Adt):
+                root = v.ty.split('::')[0].split('<')[0]
+                if root in E.crates or any(root in rs for rs in E.local_roots.values()):
+                    return [v.ty]
+                return [t for x in v.fields for t in local_adts(x, depth + 1)] if depth < 4 else []
+            if isinstance(v, Tup):
+                return [t for x in v.fields for t in local_adts(x, depth + 1)] if depth < 4 else []
+            return []
+        loc = local_adts(a[0])
+        if loc and op in ('cmp', 'partial_cmp'):
+            # a crate type reaches this library model only if no body of its Ord impl was found: its ordering may be
+            # hand-written, so the structural (derived) ordering must not be assumed
+            raise Inconclusive(f'ordering of crate type {loc[0]} requested but no MIR body of its Ord impl was resolved ({callee.strip()[:120]})')
         if op in ('lt', 'le', 'gt', 'ge'):
             # provided methods of PartialOrd: defined through the type's own partial_cmp when the crate has one
             tn = E.type_name_of(st, a[0])
